@@ -1,6 +1,13 @@
 """Single table of claimed checks; bin/mkmanifest renders MANIFEST.json from it."""
 
 CHECKS = {
+    "C17": dict(
+        level="exploration",
+        technique="TLA+ generator GenFail (failure kind x position x call chain over function / method / list-callback activations x split into an imported module, BFS); TLA+ reference semantics MSLang tracks the stack of active functions (ghost `stack`, frozen into `ftrace` at the failure); replay on the real binary; TLC judge CheckLang demands banner + exit 1 + output prefix + failure class + a reported trace structurally equal to the model's activation list (+ file:line:col for assert / get)",
+        text="Exhaustive enumeration of the fault space up to the chain-depth bound with every execution judged against the specification's failure class, output prefix and activation stack.",
+        note="Trace entries are compared structurally (kind, file, method name, equality pattern of function entries) because compiler-assigned function names are not part of the property; conversion failures and closures-as-levels are not generated yet.",
+        design="5/C17",
+    ),
     "C08": dict(
         level="exploration",
         technique="TLA+ generator GenObj (state = history of constructions, method calls, field accesses and aliasings; BFS pairs + -simulate long histories, two-phase); TLA+ object model in MSLang (identity + field cells, bound methods, Self) evaluated by TLC; replay on the real binary; TLC judge CheckLang",
